@@ -176,6 +176,9 @@ def run(ctx):
         ctx.analysed["c_functions_" + cfg] = len(F.fn_list)
         rules(ctx, F)
         rule_eq(ctx, F)
+        # an edited tree's included ranges feed the range difference that vetoes reuse (shared with C10.W2)
+        import C10
+        C10.rule_range_edit(ctx, F)
     return ctx.finish(
         "Feasibility and ordering rules over parser.c/subtree.c: the reuse accept exits are reachable under constant/flag propagation; node reuse and the token cache are tried "
         "before the lexer; every rejecting iteration moves the old-tree walk; the edit marks only nodes on the edited path. Necessary conditions only — the reuse fractions are runtime quantities.")
